@@ -29,6 +29,8 @@ type thread struct {
 	wake chan struct{}
 	done bool
 	body func()
+	// blocked: the thread waits (in Block) until the condition holds; it is not enabled before
+	blocked func() bool
 }
 
 // Scheduler runs bodies under a choice sequence.
@@ -80,11 +82,66 @@ func (s *Scheduler) nextChoice(nalt int) int {
 func (s *Scheduler) others(me int) []int {
 	var o []int
 	for _, t := range s.threads {
-		if !t.done && t.id != me {
+		if !t.done && t.id != me && (t.blocked == nil || t.blocked()) {
 			o = append(o, t.id)
 		}
 	}
 	return o
+}
+
+// unfinished reports whether a thread other than me has not finished (enabled or not).
+func (s *Scheduler) unfinished(me int) bool {
+	for _, t := range s.threads {
+		if !t.done && t.id != me {
+			return true
+		}
+	}
+	return false
+}
+
+// Block is the blocking point of the lock shims in the instrumented code (Mutex.Lock, RWMutex, Once): the
+// calling thread is disabled until cond holds. The hand-over to another enabled thread is a decision point
+// without preemption cost (the running thread cannot continue); no enabled thread at all is a deadlock.
+func (s *Scheduler) Block(cond func() bool) {
+	if cond() {
+		return
+	}
+	if !s.active || s.quiet > 0 {
+		panic("verif/sched: a lock is held by nobody who could release it (blocking outside the scheduler)")
+	}
+	me := s.threads[s.cur]
+	me.blocked = cond
+	for {
+		oth := s.others(me.id)
+		if len(oth) == 0 {
+			s.deadlock(fmt.Sprintf("deadlock: thread %d waits for a lock and no other thread can run", me.id))
+			select {} // parked for good; Run has returned through mainCh
+		}
+		c := 0
+		if len(oth) > 1 {
+			c = s.nextChoice(len(oth))
+			s.exec.Points = append(s.exec.Points, Point{Thread: me.id, Site: 0, NAlt: len(oth), Choice: c})
+		}
+		to := s.threads[oth[c]]
+		if s.OnSwitch != nil {
+			s.Quiet(s.OnSwitch)
+		}
+		s.cur = to.id
+		to.wake <- struct{}{}
+		<-me.wake
+		if cond() {
+			me.blocked = nil
+			return
+		}
+	}
+}
+
+func (s *Scheduler) deadlock(msg string) {
+	if s.err == nil {
+		s.err = fmt.Errorf("%s", msg)
+	}
+	s.active = false
+	s.mainCh <- struct{}{}
 }
 
 // Yield is the scheduling point called from the instrumented code.
@@ -125,6 +182,10 @@ func (s *Scheduler) finish(t *thread) {
 	t.done = true
 	oth := s.others(t.id)
 	if len(oth) == 0 {
+		if s.unfinished(t.id) {
+			s.deadlock("deadlock: every unfinished thread waits for a lock")
+			return
+		}
 		s.active = false
 		s.mainCh <- struct{}{}
 		return
